@@ -117,15 +117,15 @@ def observe (ver : Nat) (prog : Bytes) : Spec.ChainParams → List String → Li
     let here (o : String) := o :: observe ver prog chain rest
     match tok.splitOn ":" with
     | ["str"] => here (match strR with | .ok s => String.ofList s | .error e => "err:" ++ e.family)
-    | ["repr"] => here (match strR with
-        | .ok s => "CBech32Data('" ++ String.ofList s ++ "')" | .error e => "err:" ++ e.family)
+    | ["repr"] => here (match strR with | .ok _ => "r" | .error e => "err:" ++ e.family)   -- only has to succeed
     | ["bytes"] => here (toHex prog)
     | ["tobytes"] => here (toHex prog)
     | ["witver"] => here (toString ver)
     | ["len"] => here (toString prog.length)
-    | ["hash"] => here "True"                                  -- hash(o) == hash(bytes(o))
-    | ["eq", h] => here (match parseHex? h with | some b => (if b = prog then "True" else "False") | none => badArgs)
-    | ["ne", h] => here (match parseHex? h with | some b => (if b = prog then "False" else "True") | none => badArgs)
+    | ["hash"] => here "True"                                  -- hash(o) == hash(twin), twin an equal object
+    | ["eqtwin"] => here "True"                                -- o == twin
+    | ["netwin"] => here "False"                               -- o != twin
+    | ["strtwin"] => here "True"                               -- str(o) == str(twin)
     | ["sel", c] => (match Spec.chainByName? c with
         | some chain' => "-" :: observe ver prog chain' rest
         | none => [badArgs])
